@@ -384,10 +384,12 @@ type World struct {
 	Trees   map[string]githash.Hash
 	Tags    map[string]githash.Hash // abstract name -> tag object id
 	TagOf   map[string]string       // tag name -> commit name
+	// TagSigners maps tag name -> key name that signed the tag object
+	TagSigners map[string]string
 }
 
 func NewWorld() *World {
-	return &World{Commits: map[string]githash.Hash{}, Specs: map[string]CommitSpec{}, Trees: map[string]githash.Hash{}, Tags: map[string]githash.Hash{}, TagOf: map[string]string{}}
+	return &World{Commits: map[string]githash.Hash{}, Specs: map[string]CommitSpec{}, Trees: map[string]githash.Hash{}, Tags: map[string]githash.Hash{}, TagOf: map[string]string{}, TagSigners: map[string]string{}}
 }
 
 // AddCommit writes the commit (parents must exist already).
@@ -418,6 +420,7 @@ func (w *World) AddTag(b world.Backend, name, tagName, commit, signer string) {
 	}
 	w.Tags[name] = id
 	w.TagOf[name] = commit
+	w.TagSigners[name] = signer
 }
 
 // refver.Objects implementation.
@@ -465,7 +468,13 @@ func (w *World) CommitSigner(commit string) string {
 	}
 	return keys.Get(s).KeyID
 }
-func (w *World) TagOK(e refver.Entry) bool { return true }
+func (w *World) TagSigner(tag string) string {
+	s := w.TagSigners[tag]
+	if s == "" {
+		return ""
+	}
+	return keys.Get(s).KeyID
+}
 func (w *World) ancestors(c string, out map[string]bool) {
 	if out[c] {
 		return
